@@ -83,6 +83,16 @@ fn main() {
         }
     }
 
+    // watchdog: a check that does not finish is inconclusive (exit 2), never a violation
+    let limit: u64 = std::env::var("VERIF_WATCHDOG_S").ok().and_then(|s| s.parse().ok()).unwrap_or(match tier {
+        Tier::Quick => 1500,
+        Tier::Thorough => 6 * 3600,
+    });
+    std::thread::spawn(move || {
+        std::thread::sleep(std::time::Duration::from_secs(limit));
+        eprintln!("HARNESS WATCHDOG: check did not finish within {} s - inconclusive, no verdict", limit);
+        std::process::exit(2);
+    });
     let mut ctx = Ctx::new(&prop, tier, seed);
     if !props::run(&mut ctx) {
         eprintln!("unknown property {}", prop);
